@@ -352,6 +352,9 @@ func oracle(cs *Case, out *MProg, fail func(class, what string, expected, observ
 			switch d.Kind {
 			case "const", "typedef":
 				addTy(fi, d.Ty)
+				if d.ValDecl != "" && d.ValFile != fi {
+					needInc[[2]int{fi, d.ValFile}] = true
+				}
 			case "struct", "union", "exception":
 				if preserved(d) {
 					k := nodeKey{fi, d.Name}
@@ -618,7 +621,7 @@ func shapes(p *ProgD, c *CfgD) []string {
 	ord := p.order()
 	out = append(out, fmt.Sprintf("files=%d", len(ord)))
 	indeg := map[int]int{}
-	crossExt, sameExtNonRoot, tdRef, contRef, crossRef := false, false, false, false, false
+	crossExt, sameExtNonRoot, tdRef, contRef, crossRef, constValRef := false, false, false, false, false, false
 	var scan func(from int, t *TyD, inCont bool)
 	scan = func(from int, t *TyD, inCont bool) {
 		switch t.K {
@@ -649,6 +652,9 @@ func shapes(p *ProgD, c *CfgD) []string {
 			}
 			if d.Ty != nil {
 				scan(fi, d.Ty, false)
+			}
+			if d.ValDecl != "" && d.ValFile != fi {
+				constValRef = true
 			}
 		}
 		for _, s := range p.Files[fi].Services {
@@ -691,6 +697,9 @@ func shapes(p *ProgD, c *CfgD) []string {
 	}
 	if crossRef {
 		out = append(out, "ref-across-files")
+	}
+	if constValRef {
+		out = append(out, "const-value-across-files")
 	}
 	for _, m := range c.Methods {
 		switch {
@@ -744,12 +753,19 @@ func run(repo, dir string, seed uint64, tier, trimmerBin, thriftgoBin string) er
 		return err
 	}
 	out := vl.NewOut(dir)
-	r := vl.NewRng(seed)
+	// vl.NewRng(s) and vl.NewRng(s+1) produce the same stream shifted by one draw: decorrelate the seeds
+	z := (seed + 0x632BE59BD9B4E019) * 0xD6E8FEB86659FD93
+	z ^= z >> 32
+	z *= 0xD6E8FEB86659FD93
+	z ^= z >> 32
+	r := vl.NewRng(z)
 	n := 300
 	if tier == "thorough" {
 		n = 5000
 	}
-	shrunk := map[string]bool{}
+	perClass := map[string][]vl.OracleFail{}
+	attempts := map[string]int{}
+	var classOrder []string
 	var progs []*ProgD
 	for i := 0; i < n; i++ {
 		p := genProg(r)
@@ -774,18 +790,37 @@ func run(repo, dir string, seed uint64, tier, trimmerBin, thriftgoBin string) er
 			}
 			for _, cl := range res.classes {
 				out.Count("oracle-fail:" + cl)
-				if shrunk[cl] && len(out.Oracle) >= 6 {
+				if len(perClass[cl]) >= 2 || attempts[cl] >= 4 {
 					continue
 				}
+				attempts[cl]++
 				small := shrink(cs, cl)
 				sres := check(small)
 				for j, f := range sres.fails {
 					if sres.classes[j] == cl {
-						out.Fail(f)
-						shrunk[cl] = true
+						dup := false
+						for _, g := range perClass[cl] {
+							if g.Key == f.Key {
+								dup = true
+							}
+						}
+						if !dup {
+							perClass[cl] = append(perClass[cl], f)
+							if len(perClass[cl]) == 1 {
+								classOrder = append(classOrder, cl)
+							}
+						}
 						break
 					}
 				}
+			}
+		}
+	}
+	// at most two minimised inputs per failure class; the first of every class comes first
+	for round := 0; round < 2; round++ {
+		for _, cl := range classOrder {
+			if len(perClass[cl]) > round {
+				out.Fail(perClass[cl][round])
 			}
 		}
 	}
